@@ -7,7 +7,7 @@ CONSTANTS
   FromInput <- NoDesigns
   ExplicitTargets = FALSE
   Refusals = FALSE
-  ZeroHeightRefused = FALSE
+  ZeroHeightRefused = TRUE
   AlignTarget = FALSE
   MaxLevel = 99
 SPECIFICATION TSpec
